@@ -65,6 +65,8 @@ def install(E):
             chain.append(cur)
             cur = cur.fields[0]
         chain.reverse()
+        if cur.ty == 'DashIter' and E.multi:
+            yield ('park', 'map.iter', None)
         for item, guard in source_items(E, cur, th):
             keep = True
             val = item
